@@ -123,17 +123,44 @@ def emit_cases(seed):
     return out
 
 
-def reader_oracle(kind, seed, nops):
+VALUE_KINDS = ['attr', 'attr', 'attr', 'attr', 'rename', 'save', 'contributors']
+
+
+def reader_oracle(kind, seed, nops, kinds=None):
     """returns None or (sig, what)"""
     doc, gen = c02.base_doc(kind, seed)
     hist = []
     for i in range(nops):
         try:
-            d = editgen.apply(doc, seed, i, gen)
+            d = editgen.apply(doc, seed, i, gen, kinds)
         except Exception:
             return None
         if d:
             hist.append(d)
+    return reader_compare(doc, hist)
+
+
+def derived_oracle(kind, seed):
+    """primitives derived from other primitives (Polylist/Polygons.triangleset()) put into the geometry in place of, or next to, their origin"""
+    r = random.Random('c06d/%s' % seed)
+    doc, gen = c02.base_doc(kind, seed)
+    hist = []
+    for g in doc.geometries:
+        for i, p in enumerate(list(g.primitives)):
+            if type(p).__name__ in ('Polylist', 'Polygons') and len(p) and min(int(v) for v in p.vcounts) >= 3 and r.random() < 0.7:
+                t = p.triangleset()
+                if r.random() < 0.6:
+                    g.primitives[g.primitives.index(p)] = t
+                    hist.append('%s[%d]:=triangleset' % (g.id, i))
+                else:
+                    g.primitives.append(t)
+                    hist.append('%s+=triangleset[%d]' % (g.id, i))
+    if not hist:
+        return 'skip'
+    return reader_compare(doc, hist)
+
+
+def reader_compare(doc, hist):
     expected = snap.snapshot(doc, norm7=True, errors=False, derive_matrix=True)
     b = io.BytesIO()
     try:
@@ -206,6 +233,30 @@ def run(ctx):
         if res and res[0] not in reported:
             reported.add(res[0])
             ctx.violation('c06:' + res[0], res[1], dict(kind='reader', base=kind, seed=seed, nops=nops))
+    # value-only histories: attributes set to new values (None, zero and other falsy values included), renames, saves in between
+    for i in range(ctx.n(250, 6000)):
+        kind = 'constructed' if i % 2 == 0 else 'reloaded'
+        seed = ctx.rng.randrange(10 ** 9)
+        nops = ctx.rng.choice([1, 2, 4, 8])
+        ctx.case(dict(base=kind, seed=seed, nops=nops, values=True))
+        ctx.count('reader:value-histories')
+        res = reader_oracle(kind, seed, nops, VALUE_KINDS)
+        if res and res[0] not in reported:
+            reported.add(res[0])
+            ctx.violation('c06:' + res[0], res[1], dict(kind='reader', base=kind, seed=seed, nops=nops, kinds=VALUE_KINDS))
+    nd = 0
+    for i in range(ctx.n(120, 3000)):
+        kind = 'constructed' if i % 2 == 0 else 'reloaded'
+        seed = ctx.rng.randrange(10 ** 9)
+        res = derived_oracle(kind, seed)
+        if res == 'skip':
+            continue
+        nd += 1
+        ctx.case(dict(base=kind, seed=seed, derived=True))
+        ctx.count('reader:derived-primitives')
+        if res and res[0] not in reported:
+            reported.add(res[0])
+            ctx.violation('c06:' + res[0], res[1], dict(kind='derived', base=kind, seed=seed))
     # a kernel divergence together with a reader failure is reported through the reader failure
     if any(v['found_input'] for v in ctx.violations):
         ctx.violations[:] = [v for v in ctx.violations if v['found_input']]
@@ -213,9 +264,14 @@ def run(ctx):
 
 def replay(ctx, rep):
     if rep.get('kind') == 'reader':
-        res = reader_oracle(rep['base'], rep['seed'], rep['nops'])
+        res = reader_oracle(rep['base'], rep['seed'], rep['nops'], rep.get('kinds'))
         if res:
             print('  ' + res[1])
         return res is not None
+    if rep.get('kind') == 'derived':
+        res = derived_oracle(rep['base'], rep['seed'])
+        if res and res != 'skip':
+            print('  ' + res[1])
+        return bool(res) and res != 'skip'
     print('  kernel divergence on %r' % rep.get('line'))
     return False
